@@ -53,7 +53,8 @@ out.append(f"\n{len(metas)} seeded changes, {n_caught} reported by at least one 
            "The exceptions: C05-B (receive hooks accept coins forwarded by a token-shaped contract) cannot manifest in C05's honest-token worlds by construction; "
            "it is reported by C19 (`coins_kept`) and C18 (`victim_altered … +coins`, a signature outside the known findings). C04-B (id re-use through the CW721 bucket path, then a purchase that overwrites the seller's bucket) "
            "was reported by C01 / C03 / C07 / C09 in this matrix; rule `C04.foreign_bucket_destroyed` was added afterwards (C18-B2 / C18-C2 exercise it).\n")
-out.append('Changes the first versions of the checks missed, and what was strengthened because of them:\n')
+out.append('**How to read this table.** It says what the *final* checks report, at a quarter of their quick budgets. It is not a blind detection rate: round 1 was run blind except for C12-A, C12-B and C13-A (whose descriptions made the gap obvious, so the checks were extended before their first run); in rounds 2 and 3 the generator or a rule was usually extended on reading the agent\'s description of what the change needs, before the first run against it. What the exercise measures is therefore mostly *which classes of history, input and account the simulator had not been producing* — each round found some, listed below — and, after the extension, that the oracles do fire on them. C12-B3 is the one change for which no extension within the simulator\'s bounds was found.\n')
+out.append('Changes the first versions of the checks missed (or would have missed), and what was strengthened because of them:\n')
 out.append('''* C13-A (sub-second early cycle) — the model judged elapsed time in whole seconds; refusal is now judged on nanoseconds since the last switch (§10.1).
 * C12-A (same NFT twice with another token in between) — malformed asks now carry duplicates at any position in lists of 2–4 entries.
 * C12-B (zero-amount CW20 deposit accepted by the market itself) — needs a token that does not refuse zero itself: sloppy CW20 stub added to C12 worlds.
